@@ -154,6 +154,8 @@ func snapshotTree(root string) map[string]string {
 
 var c19IDs = []string{"a", "b", "./a", "a/", "a//b", "a/../b", "b/.", "../x", "/etc/passwd", "a/b", "..", ".", "é", "\x00", "a\nb", " ", strings.Repeat("L", 4096), "c:\\d", "%2e%2e%2f", "\xff\xfe"}
 
+var c19LongIDs = []string{strings.Repeat("L", 4096), strings.Repeat("n", 256), strings.Repeat("d/", 1100), "pkg:" + strings.Repeat("é", 1500)}
+
 func genStoreDoc(t *rapid.T, id string) *sbom.Document {
 	doc := &sbom.Document{}
 	hx.Populate(t, "doc", doc.ProtoReflect(), hx.PopOpts{Depth: 3, MaxRep: 3, FillProb: 55})
@@ -264,7 +266,22 @@ func c19Property(env *storeEnv) func(t *rapid.T) {
 
 		t.Repeat(map[string]func(*rapid.T){
 			"store": func(t *rapid.T) {
-				id := rapid.SampledFrom(c19IDs).Draw(t, "id")
+				// a third of the stores target an identifier already stored (overwrite / no-clobber conflict), a
+				// tenth the very long ones (entry names are digests: the length of the id must not matter)
+				var id string
+				switch k := rapid.IntRange(0, 9).Draw(t, "idclass"); {
+				case k < 3 && len(model) > 0:
+					known := make([]string, 0, len(model))
+					for m := range model {
+						known = append(known, m)
+					}
+					sort.Strings(known)
+					id = rapid.SampledFrom(known).Draw(t, "id")
+				case k == 3:
+					id = rapid.SampledFrom(c19LongIDs).Draw(t, "id")
+				default:
+					id = rapid.SampledFrom(c19IDs).Draw(t, "id")
+				}
 				noClobber := rapid.Bool().Draw(t, "noclobber")
 				doc := genStoreDoc(t, id)
 				raw, merr := proto.Marshal(doc)
@@ -274,6 +291,8 @@ func c19Property(env *storeEnv) func(t *rapid.T) {
 					return
 				}
 				existed := model[id] != nil
+				hx.ClassIf(len(id) > 255, "store:long_id")
+				hx.ClassIf(len(id) > 255 && existed && noClobber, "store:long_id_noclobber_conflict")
 				r := env.run([]childReq{{Op: "store", Dir: base, Doc: base64.StdEncoding.EncodeToString(raw), NoClobber: noClobber}})
 				logf("store(id=%q, noclobber=%v) -> exit=%d %+v", trunc(id, 40), noClobber, r.Exit, r.Res)
 				checkChild("store", r, 1)
@@ -312,6 +331,22 @@ func c19Property(env *storeEnv) func(t *rapid.T) {
 					}
 					model[id] = raw
 					delete(damaged, entryName(id))
+					// a quarter of the successful stores are followed at once by a no-clobber store of another
+					// document under the same identifier: it must be refused and leave the entry as it is
+					if rapid.IntRange(0, 3).Draw(t, "again") == 0 {
+						other, oerr := proto.Marshal(genStoreDoc(t, id))
+						if oerr == nil {
+							r2 := env.run([]childReq{{Op: "store", Dir: base, Doc: base64.StdEncoding.EncodeToString(other), NoClobber: true}})
+							logf("store again(id=%q, noclobber=true) -> exit=%d %+v", trunc(id, 40), r2.Exit, r2.Res)
+							checkChild("store", r2, 1)
+							clobberConflict = true
+							hx.Class("no-clobber_conflict_immediate")
+							hx.ClassIf(len(id) > 255, "store:long_id_noclobber_conflict")
+							if r2.Res[0].Err == "" {
+								t.Fatalf("store with no-clobber replaced the existing entry %q%s", id, history())
+							}
+						}
+					}
 				}
 				checkConfinement("store")
 				verify("store")
